@@ -29,7 +29,8 @@ func (fl *PFLine) Reset() {
 
 // Request returns true if the parsed first line corresponds to a SIP request.
 func (fl *PFLine) Request() bool {
-	return fl.Status == 0
+	// a reply always has a 3 digit status code (which can be "000")
+	return fl.StatusCode.Len == 0
 }
 
 // Empty returns true is nothing has been parsed yet.
